@@ -29,7 +29,7 @@ End dd_induction.
 Lemma try_convert_no_panic T v : is_panic (try_convert T v) = false.
 Proof.
   unfold try_convert, opt_bscalar, is_f64_val, is_i64_val.
-  destruct T; destruct v as [|t0 sv|id0 tbl|bs|id0 kd0 conv0]; cbn;
+  destruct T as [t|id e|id|id|id kd [[eid ekd]|]]; destruct v as [|t0 sv|id0 tbl|bs|id0 kd0 conv0]; cbn;
     try destruct sv; cbn;
     repeat match goal with
     | |- context [if ?b then _ else _] => destruct b; cbn
@@ -111,13 +111,13 @@ Proof.
   assert (Ha : ures_good ae).
   { unfold ae. pose proof (resolve_kind_good c k) as Hr.
     destruct (resolve_kind_u c k) as [def|f|w]; cbn in *; try assumption.
-    pose proof (collect_good (map (fun nv => (fst nv, bind_field c def k (fst nv) (snd nv))) fs)) as Hcol.
+    pose proof (collect_good (map (fun nv => (fst nv, bind_field c def k (fst nv) (snd nv))) (sort_fields fs))) as Hcol.
     destruct (collect_fields _) as [[[ty un] fl] pn].
     destruct Hcol as [-> F].
     { apply Forall_forall. intros [n r] Hin. apply in_map_iff in Hin as [nv [E _]]. inversion E; subst. apply bind_field_good. }
     destruct fl as [|f0 fl']; cbn.
     - destruct cres; cbn in *; assumption.
-    - split; [discriminate|assumption]. }
+    - split; [discriminate|]. inversion F; subst. constructor; [assumption|constructor]. }
   cbn [fst snd]. split; [exact Ha|].
   destruct ae as [e|f|w]; cbn in *; try exact I; try contradiction.
   destruct (has_internal f); [cbn; split; [discriminate|constructor; [right; right; reflexivity|constructor]]|].
